@@ -41,7 +41,8 @@ import (
 // prefix) o p q (update whose prefix.target is the target's OWN name / the name
 // of the NEXT target of the case, managed or already removed / a name nobody
 // manages) s (sync) e (error response) n (nil response) w / W (3 ms / 30 ms pause
-// before the next answer);
+// before the next answer) L (the next answer is delivered just after the
+// receive timeout has expired, whether or not the stream was cancelled meanwhile);
 // End is what Recv does afterwards: err, eof, canceled / deadline (an error
 // value context.Canceled / DeadlineExceeded although the stream's context is
 // alive), or hang (block until the stream's context is done).
@@ -164,6 +165,7 @@ type tgt struct {
 	iStream   int
 	nUpd      int64
 
+	effMs       int           // effective receive timeout in ms (0 = none)
 	maxWait     time.Duration // longest Recv call
 	pending     bool // inside a blocking dial / stream open
 	dialTimeout bool // Config.Timeout > 0: a blocking dial ends by itself
@@ -416,6 +418,7 @@ type stream struct {
 	s                 Stream
 	def               bool // default stream of an exhausted script
 	i                 int
+	late              bool // the next answer was already in flight: delivered even if ctx has ended
 }
 
 func openStream(ctx context.Context, _ *grpc.ClientConn) (gpb.GNMI_SubscribeClient, error) {
@@ -486,17 +489,32 @@ func (s *stream) Recv() (*gpb.SubscribeResponse, error) {
 
 func (s *stream) recv() (*gpb.SubscribeResponse, error) {
 	for {
-		select {
-		case <-s.ctx.Done():
-			return s.cancelled()
-		default:
+		if !s.late {
+			select {
+			case <-s.ctx.Done():
+				return s.cancelled()
+			default:
+			}
 		}
+		s.late = false
 		if s.i >= len(s.s.Msgs) {
 			break
 		}
 		c := s.s.Msgs[s.i]
 		s.i++
 		switch c {
+		case 'L':
+			// the next answer arrives just AFTER the receive timeout has expired
+			// (timer racing with a message in flight): this wait does not end
+			// with the context, and the answer is handed over even though the
+			// timeout goroutine may already have cancelled the stream
+			d := 5 * time.Millisecond
+			if s.t.effMs > 0 && s.t.effMs < longTimeoutMs {
+				d = time.Duration(s.t.effMs)*time.Millisecond + 4*time.Millisecond
+			}
+			time.Sleep(d)
+			s.late = true
+			continue
 		case 'w', 'W':
 			d := 3 * time.Millisecond
 			if c == 'W' {
@@ -796,6 +814,7 @@ func runCase(c Case, window time.Duration) ([][]string, [][]int64, []int64) {
 	for i, sp := range c.Targets {
 		t := &tgt{name: fmt.Sprintf("c%d-t%d", seq, i), spec: sp}
 		t.timeout = mayExpire(c, sp)
+		t.effMs = effTimeoutMs(c, sp)
 		t.cbDelay = time.Duration(c.CbDelayUs) * time.Microsecond
 		t.cond = sync.NewCond(&t.mu)
 		t.gateCh = make(chan struct{})
@@ -1394,6 +1413,19 @@ func campaignCases() []Case {
 		{Targets: []TargetSpec{{Hops: 1, Dial: []bool{false, false, false, false, false, false, false, true}, Streams: good}}},
 		{Targets: []TargetSpec{{Hops: 1, Open: []bool{false, false, false, false, false, false, true}, Streams: good}}, RealCM: true},
 	}
+	// the receive timer fires while a message is in flight: the message is
+	// delivered after the timeout, then the stream must still end with Reset and
+	// be retried, and Remove must return
+	for _, st := range [][]Stream{
+		{{"uLu", "eof"}, {"s", "eof"}},
+		{{"Lsu", "err"}, {"u", "hang"}},
+		{{"uLuLs", "hang"}, {"LuL", "eof"}, {"u", "eof"}},
+	} {
+		out = append(out, Case{Targets: []TargetSpec{{Hops: 1, TimeoutMs: tmo, Streams: st}}})
+		out = append(out, Case{MgrTimeoutMs: tmo, Targets: []TargetSpec{{Hops: 1, Streams: st}}, CbDelayUs: 200})
+		out = append(out, Case{Targets: []TargetSpec{{Hops: 1, TimeoutMs: tmo, Streams: st}}, Ops: []Op{{T: 0, At: 7, K: "remove"}}})
+		out = append(out, Case{Targets: []TargetSpec{{Hops: 1, Streams: st}}}) // no timeout: a plain 5 ms pause
+	}
 	// a callback that calls Reconnect for its own target before returning
 	for _, g := range []Gate{{"Connect", 1}, {"Update", 1}, {"Update", 2}, {"Sync", 1}, {"Reset", 1}, {"CE", 2}, {"ME", 1}} {
 		g2 := g
@@ -1443,7 +1475,7 @@ func randSpec(r *vh.Rand) TargetSpec {
 		var b strings.Builder
 		k := r.Pick(3, 3, 2, 2, 1, 1)
 		for j := 0; j < k; j++ {
-			b.WriteByte("uuuopqsssenw"[r.Intn(12)])
+			b.WriteByte("uuuopqsssenwuusL"[r.Intn(16)])
 		}
 		end := []string{"err", "eof", "hang", "canceled", "deadline"}[r.Pick(4, 4, 2, 1, 1)]
 		sp.Streams = append(sp.Streams, Stream{b.String(), end})
@@ -1696,7 +1728,7 @@ func main() {
 	manager.RetryRandomization = 0.5
 	manager.VerifSetSubscribeClient(openStream)
 
-	meta := vh.NewMeta("corpus cases; systematic family: single-target fault scripts (dial refusal, credentials / open / send failure, multi-hop, data then error / EOF, hang with and without receive timeout, slow live stream; seven single-target fault scripts in all, the seventh with a receive timer that is armed but cannot expire), each alone and with one Reconnect, one Remove and one Remove+Add placed at every position (quick: every second position of long logs) of the script's baseline log, a third of them with slow callbacks (a callback is logged when it returns); overlap family: two scripts x a held callback (each kind, first or second occurrence) x {Add, Remove, Reconnect} of the same name issued by a second goroutine while the first one's Remove is in progress (observed waiting inside Manager.Remove), a fifth of the random cases get such an action too; prefix family: updates whose prefix.target is the owner's name, another managed name, a removed name or an unknown name; realcm family: the Manager on the real connection.Manager with scripted dialers (unknown dialer name fixed on re-add, two targets sharing an address one of them with an unknown dialer, dial failures then success), a sixth of the random cases run on it too, an error that nothing during the call explains is reported as a stall; blocking family: dials and stream opens that only end with their context (dial blocks until Config.Timeout for k attempts then succeeds; Remove / Reconnect / Remove+Add issued during the pending call; a second target joining the pending dial; no dial timeout: only Reconnect / Remove end it), on the injected and on the real connection manager, a fifth of the random cases have a dial timeout and blocking dials; campaign family: duplicate and chained address lines, literal receive_timeout meta values (unparsable, zero, negative, far away next to a manager-wide timeout), peer-side context.Canceled / DeadlineExceeded as Recv errors, a slow live stream under a 40 ms timeout (the model is told 'no timeout' when no Recv took a quarter of it), seven quick failures in a row (each backoff gap is judged against the smallest delay possible at its position); random family: 1-3 targets per manager (shared addresses), 1-6 scripted attempts each, 0-4 control actions (Reconnect, Remove, Add, Remove+Add) at random log positions, receive timeout none / 12 ms / far away, callbacks instantaneous or 100-400 us. distinct = distinct (scripts, actions); non-trivial = some target's log has a Reset and a ConnectError")
+	meta := vh.NewMeta("corpus cases; systematic family: single-target fault scripts (dial refusal, credentials / open / send failure, multi-hop, data then error / EOF, hang with and without receive timeout, slow live stream; seven single-target fault scripts in all, the seventh with a receive timer that is armed but cannot expire), each alone and with one Reconnect, one Remove and one Remove+Add placed at every position (quick: every second position of long logs) of the script's baseline log, a third of them with slow callbacks (a callback is logged when it returns); overlap family: two scripts x a held callback (each kind, first or second occurrence) x {Add, Remove, Reconnect} of the same name issued by a second goroutine while the first one's Remove is in progress (observed waiting inside Manager.Remove), a fifth of the random cases get such an action too; prefix family: updates whose prefix.target is the owner's name, another managed name, a removed name or an unknown name; realcm family: the Manager on the real connection.Manager with scripted dialers (unknown dialer name fixed on re-add, two targets sharing an address one of them with an unknown dialer, dial failures then success), a sixth of the random cases run on it too, an error that nothing during the call explains is reported as a stall; blocking family: dials and stream opens that only end with their context (dial blocks until Config.Timeout for k attempts then succeeds; Remove / Reconnect / Remove+Add issued during the pending call; a second target joining the pending dial; no dial timeout: only Reconnect / Remove end it), on the injected and on the real connection manager, a fifth of the random cases have a dial timeout and blocking dials; campaign family: duplicate and chained address lines, literal receive_timeout meta values (unparsable, zero, negative, far away next to a manager-wide timeout), peer-side context.Canceled / DeadlineExceeded as Recv errors, a slow live stream under a 40 ms timeout (the model is told 'no timeout' when no Recv took a quarter of it), messages delivered just after the receive timeout fired (timer racing with a message in flight), seven quick failures in a row (each backoff gap is judged against the smallest delay possible at its position); random family: 1-3 targets per manager (shared addresses), 1-6 scripted attempts each, 0-4 control actions (Reconnect, Remove, Add, Remove+Add) at random log positions, receive timeout none / 12 ms / far away, callbacks instantaneous or 100-400 us. distinct = distinct (scripts, actions); non-trivial = some target's log has a Reset and a ConnectError")
 	meta.Samples = []interface{}{} // never null in meta.json
 	window := 30 * time.Millisecond
 	par := 8
